@@ -170,7 +170,7 @@ Proof.
     - unfold auto_learn in H1. destruct (auto_learn_go_inv _ _ _ _ _ _ I H1) as (I1 & E1 & E2 & E3 & _). auto. }
   destruct K as (I1 & Ec & Eo & Es). cbn.
   split; [|split; [reflexivity | split; [reflexivity | split; [reflexivity | split; [reflexivity | split; assumption]]]]].
-  destruct I1 as [W1 D1]. constructor; cbn; [apply ce_clear_keep_stack_wf | assumption].
+  destruct I1 as [W1 D1]. constructor; cbn; [apply ce_clear_all_wf | assumption].
 Qed.
 
 Lemma try_auto_commit_inv s s' : SInv s -> try_auto_commit conv s = Ok s' -> SInv s'.
@@ -389,7 +389,7 @@ Ltac sinv :=
       destruct I as [W Dk]; constructor;
       unfold switch_language, switch_form, cancel_selecting;
       cbn [com dict set_com set_syl set_dict set_opts set_last set_nth set_commit set_notice set_lifetime set_engine];
-      auto using ce_left_wf, ce_right_wf, ce_to_end_wf, ce_to_begin_wf, ce_clear_keep_stack_wf, ce_pop_cursor_wf,
+      auto using ce_left_wf, ce_right_wf, ce_to_end_wf, ce_to_begin_wf, ce_clear_keep_stack_wf, ce_clear_all_wf, ce_pop_cursor_wf,
                  ce_move_cursor_wf, ce_clamp_cursor_wf, ce_push_cursor_wf ]
   end.
 
@@ -757,7 +757,7 @@ Qed.
 Theorem ed_clear_inv e : Inv e -> Inv (ed_clear sops e).
 Proof.
   intros [[W Dk] Ist]. constructor; cbn [sh st ed_clear]; [|exact Logic.I].
-  constructor; cbn; [apply ce_clear_keep_stack_wf | assumption].
+  constructor; cbn; [apply ce_clear_all_wf | assumption].
 Qed.
 
 (* set_editor_options / learn / unlearn leave the buffer alone; the page is then brought back
